@@ -366,14 +366,94 @@ class _Decomposer:
                             n["detached"] = 1
                             todo.append(n["key"])
 
-    def set_file_state(self, key, st):
+    def set_file_state(self, key, st, new_hash=None):
+        """UPDATE file SET state[, hash] followed by the file_clear_hash trigger (file.py)."""
         f = self.files[key]
-        self.prims.append(f"PSetFileState {key} {st} {cbool(f['hash'])}")
-        f["state"] = st
+        h = f["hash"] if new_hash is None else int(new_hash)
+        if st in (FS.MISSING.value, FS.PLANNED.value, FS.VOLATILE.value) or (
+                st == FS.UNCONFIRMED.value and f["state"] in (FS.BUILT.value, FS.OUTDATED.value)):
+            h = 0
+        self.prims.append(f"PSetFileState {key} {st} {cbool(h)}")
+        f["state"], f["hash"] = st, h
 
-    def set_step_state(self, key, st):
-        self.prims.append(f"PSetState {key} {st} false")
+    def set_step_state(self, key, st, deferred=False):
+        self.prims.append(f"PSetState {key} {st} {cbool(deferred)}")
         self.steps[key]["state"] = st
+
+    def set_hash(self, key, b):
+        self.prims.append(f"PSetHash {key} {cbool(b)}")
+
+    # -- Workflow.update_file_hashes (the transition table is read from the repository)
+    def update_file_hashes(self, hashes: dict, cause: int):
+        from stepup.core.enums import FileState, HashUpdateCause
+        from stepup.core.workflow import _HASH_TRANSITIONS
+        by_label = {f["label"]: f["key"] for f in self.files.values()}
+        actions = {"updated": [], "deleted": [], "completed": []}
+        for path in sorted(hashes):
+            key = by_label[path]
+            known = bool(hashes[path])
+            new_state, action = _HASH_TRANSITIONS[(HashUpdateCause(cause), FileState(self.files[key]["state"]), known)]
+            self.set_file_state(key, new_state.value, new_hash=True)
+            if action is not None:
+                actions[action].append(key)
+        for key in actions["updated"]:
+            st = self.files[key]["state"]
+            if st == FS.CONFIRMED.value:
+                self.mark_consumers_pending(key)
+            elif st in (FS.PLANNED.value, FS.OUTDATED.value):
+                c = self.files[key]["creator"]
+                if c in self.steps:
+                    self.mark_step_pending(c)
+        for key in actions["deleted"]:
+            if self.files[key]["state"] == FS.PLANNED.value:
+                c = self.files[key]["creator"]
+                if c in self.steps:
+                    self.mark_step_pending(c)
+            self.mark_consumers_pending(key)
+        for key in actions["completed"]:
+            self.mark_consumers_pending(key)
+
+    def mark_consumers_pending(self, key):
+        for d in [e for e in self.deps if e["src"] == key]:
+            if d["snk"] in self.steps:
+                self.mark_step_pending(d["snk"])
+
+    # -- Step.mark_completed
+    def mark_completed(self, k, success: bool, wants_defer: bool, cap: int):
+        products = sorted(f["key"] for f in self.files.values() if f["creator"] == k)
+        if not success:
+            for key in products:
+                if self.files[key]["state"] == FS.BUILT.value:
+                    self.set_file_state(key, FS.OUTDATED.value)
+            if wants_defer:
+                self.prims.append(f"PIncDefer {k}")
+                self.steps[k]["defer_count"] += 1
+                if self.steps[k]["defer_count"] <= cap:
+                    ok = (FS.CONFIRMED.value, FS.BUILT.value)
+                    deferred = any(e["dyn"] and e["snk"] == k and e["src"] in self.files
+                                   and self.files[e["src"]]["state"] not in ok for e in self.deps)
+                    self.set_step_state(k, PENDING, deferred)
+                else:
+                    self.set_step_state(k, FAILED)
+            else:
+                self.set_step_state(k, FAILED)
+            if self.steps[k]["state"] == FAILED:
+                for key in sorted(s["key"] for s in self.steps.values() if s["creator"] == k):
+                    self.detach_step(key)
+            self.set_hash(k, False)
+        else:
+            self.set_step_state(k, SUCCEEDED)
+            for key in products:
+                if self.files[key]["state"] == FS.OUTDATED.value:
+                    self.set_file_state(key, FS.BUILT.value)
+                    self.mark_consumers_pending(key)
+            self.set_hash(k, True)
+
+    def reset_to_pending(self, k):
+        """Executor._reset_step_to_pending"""
+        self.reset_for_rerun(k)
+        self.set_hash(k, False)
+        self.set_step_state(k, PENDING)
 
     # -- composites
     def mark_file_outdated(self, key):
@@ -415,6 +495,39 @@ class _Decomposer:
 def decompose(op: str, snap: dict, key: int) -> str:
     d = _Decomposer(snap)
     getattr(d, op)(key)
+    return d.term()
+
+
+def decompose_event(ev: dict):
+    """Primitive sequence of a history event (None when the event is not decomposed)."""
+    op, args, before = ev["op"], ev.get("args") or {}, ev["before"]
+    d = _Decomposer(before)
+    if op == "start":
+        d.reset_for_rerun(args["step"])
+    elif op == "mark_pending":
+        d.mark_step_pending(args["step"])
+    elif op == "end":
+        d.update_file_hashes(args["out_hashes"], args["cause"])
+        d.mark_completed(args["step"], bool(args["stored_hash"]), bool(args["wants_defer"]), before["defer_cap"])
+    elif op == "skip":
+        if args["ok"]:
+            from stepup.core.enums import HashUpdateCause
+            d.update_file_hashes({p: True for p in args["out_hashes"]}, HashUpdateCause.SUCCEEDED.value)
+            d.mark_completed(args["step"], True, False, before["defer_cap"])
+        else:
+            d.reset_to_pending(args["step"])
+    elif op == "validate":
+        if args["changed"]:
+            d.reset_to_pending(args["step"])
+        else:
+            d.set_step_state(args["step"], PENDING)
+    elif op == "external":
+        if args.get("skipped"):
+            return "[]"
+        from stepup.core.enums import HashUpdateCause
+        d.update_file_hashes({args["path"]: args["known"]}, HashUpdateCause.EXTERNAL.value)
+    else:
+        return None
     return d.term()
 
 
